@@ -8,6 +8,9 @@ CONSTANTS
   MaxMutations = 2
   CopyRef = TRUE
   CopyOnHit = TRUE
+  Qed = FALSE
+  TauTok = 100
+  TauBelow = 2
   CopyOnStore = TRUE
 INIT Init
 NEXT Next
